@@ -319,7 +319,7 @@ func goValue(f Field) interface{} {
 	case "float64":
 		return f.V.F
 	case "time":
-		return time.Unix(f.V.I, 0)
+		return TimeOf(f.V.I)
 	}
 	if f.V.K == lang.KInt {
 		return f.V.I
